@@ -24,6 +24,7 @@ type c08Op struct {
 }
 
 type c08Scenario struct {
+	WebSocket bool       `json:"websocket"`
 	Component bool       `json:"component"`
 	TLS       bool       `json:"tls"`
 	Client    ClientOpts `json:"client"`
@@ -57,6 +58,7 @@ func runC08(e *Engine, g G, o RunOpt) RunInfo {
 	sc := &c08Scenario{Client: DefaultClientOpts()}
 	sc.Component = g.Pct("component", 25)
 	sc.TLS = !sc.Component && g.Pct("tls", 25)
+	sc.WebSocket = !sc.Component && !sc.TLS && g.Pct("websocket", 20)
 	sc.Client.SM = g.Bool("sm")
 	sc.Client.Logger = g.Weighted("logger", 5, 3, 2)
 	sc.Tasks = g.Range("tasks", 1, 4)
@@ -75,6 +77,9 @@ func runC08(e *Engine, g G, o RunOpt) RunInfo {
 				op.Kind = "iq"
 			}
 			op.Size = []int{0, 0, 200, 5000, 40000, 66000}[g.Weighted("size", 5, 3, 3, 2, 1, 1)]
+			if sc.WebSocket && op.Size > 20000 {
+				op.Size = 20000
+			}
 			sc.Ops = append(sc.Ops, op)
 		}
 	}
@@ -101,6 +106,9 @@ func runC08(e *Engine, g G, o RunOpt) RunInfo {
 	}
 	calls := make([]*callRec, len(sc.Ops))
 	var conn *SrvConn
+	var wsc *WSConn
+	var cliEnd *End
+	wsFramesAtEst := 0
 	var logw *LogWriter
 	established := false
 	var estItems int
@@ -128,7 +136,20 @@ func runC08(e *Engine, g G, o RunOpt) RunInfo {
 
 	e.Run(func() {
 		var sender xmpp.Sender
-		if sc.Component {
+		if sc.WebSocket {
+			sc.Client.Insecure = true
+			s, ok := StartClientWS(e, sc.Client, sc.Client.SM, func(w *CW) { w.CatchAll() })
+			defer s.WS.Stop()
+			if !ok {
+				return
+			}
+			e.Sleep(50 * time.Millisecond)
+			sender = s.W.Client
+			wsc = s.WSC
+			logw = s.W.LogW
+			wsFramesAtEst = len(wsc.RecvRaw)
+			e.Probe("c08.websocket")
+		} else if sc.Component {
 			w, _, c, ok := StartComponent(e, "s3cr3t", script, func(w *CompW, s *Server) { w.CatchAll() })
 			if !ok {
 				return
@@ -145,8 +166,14 @@ func runC08(e *Engine, g G, o RunOpt) RunInfo {
 			logw = s.W.LogW
 		}
 		established = true
-		estItems = len(conn.Recv)
-		cli := conn.Pipe.Cli
+		var cli *End
+		if wsc != nil {
+			cli = wsc.Pipe.Cli
+		} else {
+			estItems = len(conn.Recv)
+			cli = conn.Pipe.Cli
+		}
+		cliEnd = cli
 		if sc.FailWrite > 0 {
 			cli.FailWriteAt = cli.Writes + sc.FailWrite
 			cli.FailPartial = sc.Partial
@@ -201,32 +228,40 @@ func runC08(e *Engine, g G, o RunOpt) RunInfo {
 	for _, p := range e.Panics {
 		e.Violate("C08", "panic:"+panicSite(p), "%s: %s", p.Where, p.Value)
 	}
-	cli := conn.Pipe.Cli
-	socketFailed := false
-	for _, wr := range cli.WriteLog {
-		_ = wr
-	}
-	socketFailed = cli.writeBroken
+	cli := cliEnd
+	socketFailed := cli.writeBroken
 	if socketFailed {
 		e.Probe("c08.socket_write_failed")
 	}
 	// what the server saw after establishment
 	seen := map[string]int{}
 	var unknown []string
-	for _, r := range conn.Recv[estItems:] {
-		switch r.Item.Kind {
-		case ItemText:
-			if strings.TrimSpace(string(r.Item.Raw)) != "" {
-				unknown = append(unknown, fmt.Sprintf("text %q", clip(string(r.Item.Raw), 60)))
-			}
-		case ItemElem:
-			raw := string(r.Item.Raw)
-			if raw == xmpp.InitialPresence {
+	var readErr error
+	if wsc != nil {
+		// one stanza per WebSocket message
+		for _, raw := range wsc.RecvRaw[wsFramesAtEst:] {
+			if raw == xmpp.InitialPresence || strings.Contains(raw, nsFraming) {
 				continue
 			}
 			seen[raw]++
-		case ItemOpen:
-			unknown = append(unknown, "stream header "+clip(string(r.Item.Raw), 60))
+		}
+	} else {
+		readErr = conn.ReadErr
+		for _, r := range conn.Recv[estItems:] {
+			switch r.Item.Kind {
+			case ItemText:
+				if strings.TrimSpace(string(r.Item.Raw)) != "" {
+					unknown = append(unknown, fmt.Sprintf("text %q", clip(string(r.Item.Raw), 60)))
+				}
+			case ItemElem:
+				raw := string(r.Item.Raw)
+				if raw == xmpp.InitialPresence {
+					continue
+				}
+				seen[raw]++
+			case ItemOpen:
+				unknown = append(unknown, "stream header "+clip(string(r.Item.Raw), 60))
+			}
 		}
 	}
 	expected := map[string]*callRec{}
@@ -244,8 +279,8 @@ func runC08(e *Engine, g G, o RunOpt) RunInfo {
 			unknown = append(unknown, fmt.Sprintf("%dx %s", n, clip(raw, 120)))
 		}
 	}
-	if conn.ReadErr != nil && !socketFailed && !strings.Contains(conn.ReadErr.Error(), "closed") && !strings.Contains(conn.ReadErr.Error(), "EOF") {
-		unknown = append(unknown, "stream not well-formed: "+conn.ReadErr.Error())
+	if readErr != nil && !socketFailed && !strings.Contains(readErr.Error(), "closed") && !strings.Contains(readErr.Error(), "EOF") {
+		unknown = append(unknown, "stream not well-formed: "+readErr.Error())
 	}
 	if len(unknown) > 0 {
 		e.Violate("C08", "foreign-bytes-on-wire", "the server received something that is none of the sent stanzas: %v", unknown)
